@@ -289,6 +289,13 @@ def axis_st(nd):
     return st.integers(-nd, nd - 1)
 
 
+@st.composite
+def shape_st(draw, nd, hi, empty_p=10, lo=1):
+    """nd sides in lo..hi; with probability empty_p % (one decision per case) sides may also be 0."""
+    lo_eff = 0 if draw(st.integers(0, 99)) < empty_p else lo
+    return [draw(st.integers(lo_eff, hi)) for _ in range(nd)]
+
+
 # --------------------------------------------------------------------------
 # reshape
 
@@ -479,8 +486,9 @@ def axes_case(draw):
     op = draw(st.sampled_from(["transpose", "transpose", "moveaxis", "swapaxes", "squeeze", "expand_dims", "flip", "flipud", "fliplr", "rot90", "broadcast_to"]))
     min_nd = {"swapaxes": 1, "moveaxis": 1, "flipud": 1, "fliplr": 2, "rot90": 2}.get(op, 0)
     nd = draw(st.integers(min_nd, 4))
-    side = st.sampled_from([0, 1, 1, 2, 3, 4, 5]) if op in ("squeeze", "broadcast_to") else st.sampled_from([0, 1, 2, 3, 4, 5, 6])
-    shape = [draw(side) for _ in range(nd)]
+    shape = draw(shape_st(nd, 5 if op in ("squeeze", "broadcast_to") else 6))
+    if op in ("squeeze", "broadcast_to"):
+        shape = [1 if draw(st.integers(0, 3)) == 0 else s for s in shape]
     arr = draw(C.arr(shape=shape, dtypes=MOVE_DTYPES))
     if op == "transpose":
         mode = draw(st.sampled_from(["perm", "perm", "none", "T"]))
@@ -556,18 +564,19 @@ def combine_case(draw):
 
     if op == "concatenate":
         nd = draw(st.integers(1, 3))
-        base = [draw(st.integers(0, 5)) for _ in range(nd)]
+        base = draw(shape_st(nd, 5))
         ax = draw(st.integers(0, nd - 1))
+        lo = 0 if 0 in base or draw(st.integers(0, 9)) == 0 else 1
         pairs = []
         for i in range(n):
             shp = list(base)
-            shp[ax] = draw(st.integers(0, 5))
+            shp[ax] = draw(st.integers(lo, 5))
             pairs.append(one(shp, force_da=i == 0))
         axis = ax - nd if draw(st.integers(0, 2)) == 0 else ax
         return mk(op, [p[0] for p in pairs], {"axis": axis}, [p[1] for p in pairs])
     if op == "stack":
         nd = draw(st.integers(0, 3))
-        base = [draw(st.integers(0, 5)) for _ in range(nd)]
+        base = draw(shape_st(nd, 5))
         pairs = [one(base, force_da=i == 0) for i in range(n)]
         axis = draw(st.integers(-(nd + 1), nd))
         return mk(op, [p[0] for p in pairs], {"axis": axis}, [p[1] for p in pairs])
@@ -585,17 +594,18 @@ def combine_case(draw):
         for i in range(n):
             shp = list(base)
             if ax is not None:
-                shp[ax] = draw(st.integers(0, 4))
+                shp[ax] = draw(st.integers(0 if draw(st.integers(0, 9)) == 0 else 1, 4))
             pairs.append(one(shp, force_da=i == 0))
         return mk(op, [p[0] for p in pairs], {}, [p[1] for p in pairs])
     # block: a rows x cols grid of 2-d blocks (or a flat list of 1-d blocks)
     if draw(st.integers(0, 3)) == 0:
-        pairs = [one([draw(st.integers(0, 4))], force_da=i == 0) for i in range(n)]
+        pairs = [one([draw(st.integers(0 if draw(st.integers(0, 9)) == 0 else 1, 4))], force_da=i == 0) for i in range(n)]
         return mk(op, [p[0] for p in pairs], {"layout": list(range(n))}, [p[1] for p in pairs])
     rows = draw(st.integers(1, 3))
     cols = draw(st.integers(1, 3))
-    hs = [draw(st.integers(0 if draw(st.integers(0, 5)) == 0 else 1, 4)) for _ in range(rows)]
-    ws = [draw(st.integers(0 if draw(st.integers(0, 5)) == 0 else 1, 4)) for _ in range(cols)]
+    lo = 0 if draw(st.integers(0, 9)) == 0 else 1
+    hs = [draw(st.integers(lo, 4)) for _ in range(rows)]
+    ws = [draw(st.integers(lo, 4)) for _ in range(cols)]
     lead = [draw(st.integers(1, 2))] if draw(st.integers(0, 4)) == 0 else []
     pairs, layout = [], []
     for i in range(rows):
@@ -710,12 +720,12 @@ def grow_case(draw):
     op = draw(st.sampled_from(["repeat", "tile", "pad", "pad", "pad"]))
     if op == "repeat":
         nd = draw(st.integers(1, 3))
-        shape = [draw(st.integers(0, 6)) for _ in range(nd)]
+        shape = draw(shape_st(nd, 6))
         arr = draw(C.arr(shape=shape, dtypes=MOVE_DTYPES))
         return mk(op, [arr], {"repeats": draw(st.integers(0, 4)), "axis": draw(axis_st(nd))})
     if op == "tile":
         nd = draw(st.integers(0, 3))
-        shape = [draw(st.integers(0, 4)) for _ in range(nd)]
+        shape = draw(shape_st(nd, 4))
         arr = draw(C.arr(shape=shape, dtypes=MOVE_DTYPES))
         k = draw(st.integers(1, 3))
         reps = [draw(st.sampled_from([0, 1, 1, 2, 2, 3])) for _ in range(k)]
@@ -738,11 +748,11 @@ def shift_case(draw):
     op = draw(st.sampled_from(["tril", "triu", "diff", "diff", "roll", "roll"]))
     if op in ("tril", "triu"):
         nd = draw(st.integers(2, 3))
-        shape = [draw(st.integers(0 if draw(st.integers(0, 7)) == 0 else 1, 6)) for _ in range(nd)]
+        shape = draw(shape_st(nd, 6))
         arr = draw(C.arr(shape=shape, dtypes=NUM_DTYPES + ("bool", "c16")))
         return mk(op, [arr], {"k": draw(st.integers(-6, 6))})
     nd = draw(st.integers(1, 3))
-    shape = [draw(st.integers(0 if draw(st.integers(0, 7)) == 0 else 1, 7)) for _ in range(nd)]
+    shape = draw(shape_st(nd, 7))
     if op == "diff":
         dts = NUM_DTYPES + ("c16", "M8[ns]") + (("bool",) if draw(st.integers(0, 1)) == 0 else ())
         arr = draw(C.arr(shape=shape, dtypes=dts))
